@@ -1,7 +1,8 @@
 (* Pinned statements of C09 (generated once by tools/mkpins.py from coq/props/C09.v, then committed). *)
 From DV Require Import Model.Base Model.NameCheck Model.Parser Model.Header Model.Readers Model.Uncompress
   Model.Mutate Spec.NameSpec Spec.PacketSpec Spec.RecordSpec Proofs.Hoare Proofs.HeaderBits Proofs.InsertLemmas
-  Spec.PlainSpec Proofs.WalkValues Proofs.SetTtl Proofs.WalkSkip Proofs.PlainWf Proofs.InsertSpec Proofs.SetTtlInv Proofs.DeleteInv Proofs.SetNameInv Proofs.ReplaceInv Proofs.WalkInv Proofs.DecompressFirst Proofs.NameCheckTotal props.C09.
+  Spec.PlainSpec Proofs.WalkValues Proofs.SetTtl Proofs.WalkSkip Proofs.PlainWf Proofs.InsertSpec Proofs.SetTtlInv Proofs.DeleteInv Proofs.SetNameInv Proofs.ReplaceInv Proofs.WalkInv Proofs.DecompressFirst Proofs.NameCheckTotal
+  Model.Renamer Proofs.RenameSpec Proofs.CompressContent Proofs.RenameContent props.C09.
 Check (C09_insert_appends : forall sec rr v it s',
   insert_core sec rr (v, it) = (s', Ok tt) ->
   exists p1 ins,
@@ -129,3 +130,24 @@ Check (C09_set_name_on_parsed_packet : forall nm p v qls qt lA lN lR sec l1 r x 
     map unpl (lA' ++ lN' ++ lR') = U1 ++ unpl (with_labels (r, x) ls) :: U2 /\
     length U1 = (match sec with SAnswer => 0 | SNameServers => length lA | _ => length lA + length lN end) + length l1).
 Print Assumptions C09_set_name_on_parsed_packet.
+Check (C09_insert_on_decompressed : forall v it sec rx s',
+  dinv v -> plain_rr_ok rx -> sec = SAnswer \/ sec = SNameServers \/ sec = SAdditional ->
+  (sec <> SAdditional -> is_response (pp_packet v)) ->
+  m_insert_rr sec (plain_record rx) (v, it) = (s', Ok tt) ->
+  dinv (fst s') /\ snd s' = it /\ (is_response (pp_packet v) -> is_response (pp_packet (fst s'))) /\
+  exists qls qt A Nn R,
+    let o1 := 12 + length (wire_of_labels qls) + 4 in
+    reading (pp_packet v) qls qt (place o1 A) (place (o1 + length (cat A)) Nn) (place (o1 + length (cat A) + length (cat Nn)) R) /\
+    let A' := ext_a sec rx A in let N' := ext_n sec rx Nn in let R' := ext_r sec rx R in
+    reading (pp_packet (fst s')) qls qt (place o1 A') (place (o1 + length (cat A')) N') (place (o1 + length (cat A') + length (cat N')) R')).
+Print Assumptions C09_insert_on_decompressed.
+Check (C09_rename_effect : forall p v it sl tl sfx s', bytes_ok p -> parse p = Ok v ->
+  Forall lab sl -> Forall lab tl -> sl <> [] -> tl <> [] -> bytes_ok (wire_of_labels tl) ->
+  length (wire_of_labels sl) <= 255 -> length (wire_of_labels tl) <= 255 ->
+  m_rename (wire_of_labels tl) (wire_of_labels sl) sfx (v, it) = (s', Ok tt) ->
+  snd s' = it /\
+  exists qls qt lxa lxn lxr qls' L' lxa' lxn' lxr',
+    reading p qls qt lxa lxn lxr /\ renamed sl tl sfx qls qls' /\ Forall2 (ren_rec sl tl sfx) (lxa ++ lxn ++ lxr) L' /\
+    reading (pp_packet (fst s')) qls' qt lxa' lxn' lxr' /\ Forall2 ci_rec L' (lxa' ++ lxn' ++ lxr') /\
+    length lxa' = length lxa /\ length lxn' = length lxn /\ length lxr' = length lxr).
+Print Assumptions C09_rename_effect.
